@@ -231,7 +231,7 @@ def run(ctx):
 
     def guard(g):
         mod, cfg, inv = g
-        r = vlib.tlc(mod, cfg, workers=2, xmx="1g")
+        r = vlib.tlc(mod, cfg, workers=2, xmx="1g", expect=inv)
         if inv not in r.invariant_violated:
             raise vlib.Infra("vacuity guard: %s/%s did not violate %s" % (mod, cfg, inv))
         return {"module": mod, "cfg": cfg, "violates": inv}
